@@ -3,6 +3,8 @@ package gcsemu
 // C02 — what is uploaded is what is served, until overwritten or deleted.
 
 import (
+	"crypto/md5"
+	"encoding/base64"
 	"net/http"
 	"net/url"
 
@@ -185,7 +187,50 @@ func H_C02_media() {
 	vReach("c02-media")
 }
 
+// H_C02_resumable_md5: a resumable session that declared an MD5. A final chunk whose bytes do not
+// hash to it is rejected and stays rejected when the client asks again; nothing becomes visible.
+func H_C02_resumable_md5() {
+	g := vNewEmu()
+	good := md5.Sum([]byte("ab"))
+	declared := base64.StdEncoding.EncodeToString(good[:])
+	w := vNewRecorder()
+	start := &http.Request{Form: url.Values{"uploadType": []string{"resumable"}}, Header: http.Header{}, Body: &vBody{decode: func(v interface{}) error {
+		o := v.(*storage.Object)
+		o.Name = "o"
+		o.Md5Hash = declared
+		return nil
+	}}}
+	g.handleGcsNewObject(vCtx(), dontNeedUrls, w, start, "b", emptyConds)
+	vAssert(w.code == http.StatusOK, "session-started")
+	body := vNondetBytes("chunk", 2)
+	sum := md5.Sum(body)
+	matches := vBytesEq(sum[:], good[:])
+	c02Ranges = []*byteRange{{lo: 0, hi: 1, sz: 2}}
+	w1 := vNewRecorder()
+	g.handleGcsNewObjectResume(vCtx(), dontNeedUrls, w1, &http.Request{Header: http.Header{"Content-Range": []string{"bytes x"}}, Body: &vBody{raw: body}}, "1")
+	if matches {
+		vAssert(w1.code == http.StatusOK, "matching-md5-accepted")
+		vReach("c02-md5-ok")
+		return
+	}
+	vAssert(w1.code == http.StatusBadRequest, "md5-mismatch-400")
+	vAssert(!vSnap(g, "b", "o").exists, "md5-mismatch-stores-nothing")
+	// the client asks again: a status query that also finalises, or the same range re-sent
+	w2 := vNewRecorder()
+	if vChoice("retry", 0, 1) == 0 {
+		c02Ranges = []*byteRange{{lo: -1, hi: -1, sz: 2}}
+		g.handleGcsNewObjectResume(vCtx(), dontNeedUrls, w2, &http.Request{Header: http.Header{"Content-Range": []string{"bytes x"}}, Body: &vBody{}}, "1")
+	} else {
+		c02Ranges = []*byteRange{{lo: 0, hi: 1, sz: 2}}
+		g.handleGcsNewObjectResume(vCtx(), dontNeedUrls, w2, &http.Request{Header: http.Header{"Content-Range": []string{"bytes x"}}, Body: &vBody{raw: body}}, "1")
+	}
+	vAssert(w2.code != http.StatusOK, "rejected-bytes-stay-rejected")
+	vAssert(!vSnap(g, "b", "o").exists, "rejected-bytes-never-become-visible")
+	vReach("c02-md5-mismatch")
+}
+
 func init() {
+	vHarnesses["H_C02_resumable_md5"] = H_C02_resumable_md5
 	vHarnesses["H_C02_range"] = H_C02_range
 	vHarnesses["H_C02_resumable"] = H_C02_resumable
 	vHarnesses["H_C02_media"] = H_C02_media
